@@ -330,8 +330,12 @@ pub fn run(tier: Tier) -> i32 {
     // units at every alignment; errors are also rendered (Display) -- truncation / width limits live here
     {
         let sizes: Vec<usize> = tier.pick(vec![500, 1000, 1023, 1024, 1025, 2047, 2048, 2049, 4095, 4096, 4097, 8192, 32767, 32768, 65534, 65535, 65536, 65537], vec![500, 1000, 1023, 1024, 1025, 2047, 2048, 2049, 4095, 4096, 4097, 8191, 8192, 8193, 16384, 32767, 32768, 32769, 65533, 65534, 65535, 65536, 65537, 70000, 131072, 262144]);
-        let heads = ["abs('", "=== '", "nosuch(@) || '", "a.b.c | length('", "'", "\"", "`\"", "\n\nabs('", "[?a == '", "to_number('"];
+        // the last five put a complete, well-formed long token where the parser does not expect one (the parser's
+        // own diagnosis quotes the token it found)
+        let heads = ["abs('", "=== '", "nosuch(@) || '", "a.b.c | length('", "'", "\"", "`\"", "\n\nabs('", "[?a == '", "to_number('", "a '", "a.'", "a \"", "a `\"", "[?a == 'x' '"];
         let units = ["a", "é", "😀", "\u{301}", "\u{200d}"];
+        // and every short length (limits of a few dozen bytes live there)
+        let sizes: Vec<usize> = (8..=160usize).chain(sizes.into_iter()).collect();
         let jobs: Vec<(usize, usize, usize)> = sizes.iter().flat_map(|&n| (0..heads.len()).flat_map(move |h| (0..units.len()).map(move |u| (n, h, u)))).collect();
         let sl = par_sweep(jobs, |&(n, h, u), st| {
             for pad in 0..4 {
